@@ -116,7 +116,7 @@ def groupers(ctx, quick):
             shutil.rmtree(d, ignore_errors=True)
     finally:
         shutil.rmtree(work, ignore_errors=True)
-    pre = PRE_G + "Definition check := check_table.\nDefinition prop := prop_table.\n"
+    pre = PRE_G + "From IQ Require Import GroupedUniverse GroupedTable GroupedUniverseCheck.\nDefinition check := check_table.\nDefinition prop := prop_table_strict.\n"
     mism, viol = ctx.corr("grouper_table", pre, cases, shard=200, nontrivial=lambda o: o["impl"] != "NA")
     ctx.corr_report("grouper_table", mism, viol, keyfn=lambda o: None, what="ReadTableGrouper behind split_read_group_table does not return the table entry / NA")
 
@@ -141,6 +141,218 @@ def groupers(ctx, quick):
              "files, custom columns and delimiters, comments, malformed and duplicated lines, padded values) / FileNameGrouper, directly and via create_read_grouper, on real "
              "pysam segments: tag present/absent, delimiter present/absent/overlapping/at the ends, table hit/miss, file label known/unknown/None; answer and registration "
              "in read_groups compared with the model and with the specification (a group is always returned, NA when the read has none); non-trivial = a group other than NA")
+
+
+PRE_U = """From IQ Require Import GroupedGroupers GroupedCheck GroupedUniverse GroupedTable GroupedUniverseCheck.
+Open Scope Z_scope.
+"""
+RESUME_KEY = "C09:resume-strips-group-names"
+
+
+def real_universe(case, workdir):
+    """the REAL collect_reads_in_parallel (its collaborators AlignmentCollector, TmpFileAssignmentPrinter, Fasta, pysam.AlignmentFile and, on resume,
+       BasicReadAssignmentLoader replaced by stubs; the stub collector asks the REAL grouper built by create_read_grouper for every generated alignment) once
+       per chromosome - it writes <raw>_<chr>_groups - and, for a resume case, a second time with args.resume (it reads the file back); the union as
+       collect_reads takes it; the info file through the real write_list / write_string and DatasetProcessor.load_read_info; a real counter built with the result"""
+    import pickle
+    from src import dataset_processor as D
+    from src.serialization import write_int, write_list, write_string
+    from src.long_read_counter import create_gene_counter
+    from src.stats import EnumStats
+    raw = os.path.join(workdir, "S.save")
+    class Seg:
+        def __init__(self, name, tag): self.query_name = name; self._tag = tag
+        def get_tag(self, t):
+            if self._tag is None: raise KeyError(t)
+            return self._tag
+    class Collector:
+        def __init__(self, chr_id, bam_pairs, args, illumina, db, rec, grouper): self.chr_id = chr_id; self.grouper = grouper; self.alignment_stat_counter = EnumStats()
+        def process(self):
+            storage = []
+            for k, (name, tag, fi) in enumerate(case["chrs"][int(self.chr_id[3:])]):
+                g = self.grouper.get_group_id(Seg(name, tag), case["files"][fi])
+                storage.append(types.SimpleNamespace(read_id=name, read_group=g))
+            yield types.SimpleNamespace(), storage
+    class Printer:
+        def __init__(self, fname, args): open(fname, "wb").close()
+        def add_gene_info(self, g): pass
+        def add_read_info(self, r): pass
+    class Loader:
+        def __init__(self, fname): pass
+        def has_next(self): return False
+    saved = (D.AlignmentCollector, D.TmpFileAssignmentPrinter, D.Fasta, D.pysam, D.BasicReadAssignmentLoader)
+    D.AlignmentCollector = Collector; D.TmpFileAssignmentPrinter = Printer; D.Fasta = lambda *a, **k: collections_defaultdict_str()
+    D.pysam = types.SimpleNamespace(AlignmentFile=lambda *a, **k: types.SimpleNamespace(close=lambda: None)); D.BasicReadAssignmentLoader = Loader
+    sample = types.SimpleNamespace(out_raw_file=raw, file_list=[[f] for f in case["files"]], illumina_bam=None, readable_names_dict=None, read_group_file=os.path.join(workdir, "S.read_group"))
+    args = types.SimpleNamespace(reference="ref.fa", fai_file_name="ref.fa.fai", high_memory=False, resume=False, read_group=case["mode"], genedb=None,
+                                 input_data=types.SimpleNamespace(samples=[sample]))
+    files = []; returned = []; answers = []
+    try:
+        for ci in range(len(case["chrs"])):
+            chr_id = "chr%d" % ci
+            args.resume = False
+            groups, _, reads = D.collect_reads_in_parallel(sample, chr_id, args)
+            files.append([l.rstrip("\n") for l in open("%s_%s_groups" % (raw, chr_id))])
+            if case["resume"]:
+                args.resume = True
+                groups, _, _ = D.collect_reads_in_parallel(sample, chr_id, args)
+            returned.append(sorted(groups))
+    finally:
+        D.AlignmentCollector, D.TmpFileAssignmentPrinter, D.Fasta, D.pysam, D.BasicReadAssignmentLoader = saved
+    all_groups = set()
+    for r in returned: all_groups.update(r)                                  # collect_reads: all_read_groups.update(read_groups)
+    order = list(all_groups); case["rnd"].shuffle(order)                    # list(set): some enumeration order
+    with open(raw + "_info", "wb") as f:
+        write_int(0, f); write_int(0, f); write_list(order, f, write_string)
+    _, _, universe = D.DatasetProcessor.load_read_info(None, raw)
+    c = create_gene_counter(os.path.join(workdir, "x.gene_grouped"), "unique_only", read_groups=universe)
+    return dict(files=files, returned=returned, universe=sorted(universe), ordered=list(c.ordered_groups), ids=sorted(c.group_numeric_ids.items(), key=lambda p: p[1]))
+
+
+class collections_defaultdict_str(dict):
+    def __missing__(self, k): return "ACGT"
+
+
+def universe_section(ctx, quick):
+    from src import read_groups as RG
+    rnd = ctx.rnd; cases = []
+    values = ["", "NA", "g1", "cell-7", "A B", "zeta", "10", "9", "Beta", "alpha"]
+    work = tempfile.mkdtemp(prefix="iqv_c09u_")
+    def gen(resume, padded=False):
+        mode = rnd.choice(["tag:RG", "tag:RG", "read_id:|", "file_name"])
+        files = ["/d/lib%d.bam" % k for k in range(rnd.randint(1, 3))]
+        nchr = rnd.randint(1, 4); pool = rnd.sample(values, rnd.randint(1, 5)) + ([" pad", "pad ", "tab\tin"] if padded else [])
+        chrs = []; truth = []
+        for ci in range(nchr):
+            sub = rnd.sample(pool, rnd.randint(0, len(pool))) if rnd.random() < .8 else []          # groups absent from a chromosome / a chromosome without reads
+            als = []; ans = []
+            for k in range(rnd.choice([0, 1, 3, 6]) if sub or rnd.random() < .5 else 0):
+                g = rnd.choice(sub) if sub and rnd.random() < .85 else None
+                fi = rnd.randrange(len(files)); name = "r%d_%d" % (ci, k)
+                if mode.startswith("tag"): als.append((name, g, fi)); ans.append("NA" if g is None else g)
+                elif mode.startswith("read_id"): als.append((name + ("|" + g if g is not None else ""), None, fi)); ans.append("NA" if g is None else g.split("|")[-1])
+                else: als.append((name, None, fi)); ans.append("lib%d" % fi)
+            chrs.append(als); truth.append(ans)
+        if nchr > 1 and rnd.random() < .3 and mode.startswith("tag"):                                # a group that occurs only on the LAST chromosome
+            chrs[-1].append(("only_last", "omega", 0)); truth[-1].append("omega")
+        return dict(mode=mode, files=files, chrs=chrs, truth=truth, resume=resume, rnd=rnd)
+    def run_case(case):
+        d = tempfile.mkdtemp(dir=work)
+        try: return real_universe(case, d)
+        finally: shutil.rmtree(d, ignore_errors=True)
+    try:
+        for i in range(250 if quick else 2500):
+            case = gen(resume=i % 3 == 0)
+            rep = {k: case[k] for k in ("mode", "files", "chrs", "resume")}
+            try: res = run_case(case)
+            except Exception as e:
+                ctx.violation(None, "the group universe cannot be built: %s (a read that cannot be grouped must be reported under NA rather than aborting the run)" % type(e).__name__, dict(rep, error=impl_error(e))); continue
+            obs = "(%s, %s, %s, %s, %s)" % (clist(res["files"], lambda l: clist(l, cs)), clist(res["returned"], lambda l: clist(l, cs)), clist(res["universe"], cs), clist(res["ordered"], cs),
+                                            clist(res["ids"], lambda p: "(%s, %s)" % (cs(p[0]), cz(p[1]))))
+            cases.append(("(%s, %s, %s)" % (cbool(case["resume"]), clist(case["truth"], lambda l: clist(l, cs)), obs),
+                          dict(rep, groups_of_the_processed_reads=case["truth"], group_files=res["files"], universe=res["universe"], ordered_groups=res["ordered"], group_numeric_ids=res["ids"])))
+        # the recorded defect of the resume path (group names with white space at their ends are stripped when the group file is read back): reproduced once it is listed
+        if any(f["key"] == RESUME_KEY and f["property"] == "C09" for f in known_findings().get("findings", [])):
+            case = dict(mode="tag:RG", files=["/d/a.bam"], chrs=[[("r1", " g1", 0)]], truth=[[" g1"]], resume=True, rnd=rnd)
+            res = run_case(case)
+            if " g1" not in res["universe"]:
+                ctx.violation(RESUME_KEY, "on --resume the per-chromosome group file is read back through str.strip(): the group ' g1' becomes 'g1', the reads still carry ' g1'",
+                              {"mode": "tag:RG", "chrs": case["chrs"], "resume": True, "universe": res["universe"]})
+    finally:
+        shutil.rmtree(work, ignore_errors=True)
+    pre = PRE_U + "Definition check := check_universe.\nDefinition prop := prop_universe.\n"
+    mism, viol = ctx.corr("group_universe", pre, cases, shard=60, ctype="ucase", nontrivial=lambda o: len(o["universe"]) > 1)
+    ctx.corr_report("group_universe", mism, viol, keyfn=lambda o: None, what="a group carried by a processed read is missing from the universe the counters are built with (group_numeric_ids would raise KeyError)")
+    ctx.rule("group universe: the REAL collect_reads_in_parallel per chromosome (collector, save-file printer, Fasta and pysam stubbed; the stub collector asks the real grouper of "
+             "create_read_grouper - tag / read_id / file_name - for every generated alignment): 1-4 chromosomes, chromosomes without reads, groups absent from a chromosome, untagged reads (NA), "
+             "the empty group, a group that occurs only on the last chromosome; every third case also takes the real --resume branch that reads <raw>_<chr>_groups back; union as collect_reads; "
+             "info file through the real write_list/write_string in a shuffled enumeration order and the real load_read_info; a real counter built with the result; compared with "
+             "GroupedUniverse.v (check_universe) and with the specification: every group of a processed read is a key of group_numeric_ids whose position in ordered_groups holds that group, "
+             "and no group is in the universe that no alignment was given (prop_universe); non-trivial = two or more groups")
+
+
+def table_split_section(ctx, quick):
+    """option parsing and the per-chromosome split files of --read_group file:..., on the real get_file_grouping_properties / prepare_read_groups"""
+    import pysam
+    from src import read_groups as RG
+    rnd = ctx.rnd
+    # ---- option strings
+    cases = []
+    for i in range(200 if quick else 2000):
+        f = rnd.choice(["t.tsv", "/a/b.c/t", "t", ""]); x = rnd.random()
+        num = lambda: rnd.choice(["0", "1", "2", "10", "03", "x", "", "1a"] if rnd.random() < .25 else ["0", "1", "2", "3"])
+        if x < .2: opt = "file:" + f
+        elif x < .3: opt = "file:%s:%s" % (f, num())
+        elif x < .6: opt = "file:%s:%s:%s" % (f, num(), num())
+        elif x < .9: opt = "file:%s:%s:%s:%s" % (f, num(), num(), rnd.choice([",", ";;", "|", "\t", " ", "ab"]))
+        else: opt = "file:%s:%s:%s:%s:%s" % (f, num(), num(), rnd.choice([",", "|"]), rnd.choice(["x", ""]))
+        try:
+            r = RG.get_file_grouping_properties(opt.split(":")); impl = "(Some (%s, %d, %d, %s))" % (cs(r[0]), r[1], r[2], cs(r[3])) if r[1] >= 0 and r[2] >= 0 else None
+        except ValueError: r = None; impl = "None"
+        except Exception as e:
+            ctx.violation(None, "get_file_grouping_properties raises %s" % type(e).__name__, {"option": opt, "error": impl_error(e)}); continue
+        if impl is None: continue
+        cases.append(("(%s, %s)" % (cs(opt), impl), {"option": opt, "impl": r}))
+    pre = PRE_U + "Definition check := check_option.\nDefinition prop := check_option.\n"
+    mism, viol = ctx.corr("table_option", pre, cases, ctype="str * option (str * Z * Z * str)", nontrivial=lambda o: o["impl"] is not None and (o["impl"][1], o["impl"][2], o["impl"][3]) != (0, 1, "\t"))
+    ctx.corr_report("table_option", mism, viol, keyfn=lambda o: None, what="get_file_grouping_properties does not parse file:FILE[:READ_COL:GROUP_COL[:DELIM]] as documented")
+    # ---- split files
+    hdr = pysam.AlignmentHeader.from_dict({"HD": {"VN": "1.6", "SO": "coordinate"}, "SQ": [{"SN": "chrA", "LN": 10000}, {"SN": "chrB", "LN": 10000}, {"SN": "chrC", "LN": 10000}]})
+    def seg(name, ref, pos):
+        a = pysam.AlignedSegment(hdr); a.query_name = name; a.flag = 0; a.reference_id = ref; a.reference_start = pos; a.cigartuples = [(0, 10)]
+        a.query_sequence = "ACGTACGTAC"; a.mapping_quality = 60
+        return a
+    cases = []; work = tempfile.mkdtemp(prefix="iqv_c09s_")
+    try:
+        for i in range(120 if quick else 1200):
+            d = os.path.join(work, "t%d" % i); os.makedirs(os.path.join(d, "aux"))
+            delim, rc, gc = rnd.choice([("\t", 0, 1), ("\t", 1, 0), ("\t", 2, 0), ("\t", 0, 2), (",", 0, 1), (",", 1, 0), (";;", 1, 2), ("|", 0, 1)])
+            reads = list(dict.fromkeys(rname(rnd, ()) for _ in range(rnd.randint(2, 7))))
+            if delim == "|": reads = [r.replace("|", "x") for r in reads]; reads = list(dict.fromkeys(reads))
+            lines = []
+            for r in reads + [rname(rnd, ()).replace("|", "x") for _ in range(2)]:
+                x = rnd.random()
+                if x < .2: continue                                               # no row
+                cols = ["c%d" % j for j in range(max(rc, gc) + 1 + rnd.randint(0, 1))]
+                cols[rc] = r; cols[gc] = rnd.choice(["g1", "g2", "NA", "zeta", "A B", "10"])
+                lines.append(delim.join(cols))
+                if x > .85: cols[gc] = "dup"; lines.append(delim.join(cols))       # a second row for the same read: the last one wins
+            for _ in range(rnd.randint(0, 2)): lines.insert(rnd.randint(0, len(lines)), rnd.choice(["", "# comment", "lonely"]))
+            tfile = os.path.join(d, "groups.tsv"); open(tfile, "w").write("".join(l + "\n" for l in lines))
+            # two BAM files; a read may be aligned to several chromosomes and several times to one
+            per_file = [[], []]
+            for j, r in enumerate(reads):
+                for ref in rnd.sample([0, 1, 2], rnd.choice([1, 1, 2, 3])):
+                    for rep in range(rnd.choice([1, 1, 2])): per_file[rnd.randrange(2)].append((ref, 100 + rnd.randrange(50) * 10, r))
+            bams = []
+            for k in (0, 1):
+                bam = os.path.join(d, "f%d.bam" % k); bams.append(bam)
+                with pysam.AlignmentFile(bam, "wb", header=hdr) as out:
+                    for ref, pos, r in sorted(per_file[k], key=lambda t: (t[0], t[1])): out.write(seg(r, ref, pos))
+            sample = types.SimpleNamespace(file_list=[[b] for b in bams], read_group_file=os.path.join(d, "aux", "S.read_group"))
+            opt = "file:%s:%d:%d" % (tfile, rc, gc) + ("" if delim == "\t" else ":" + delim)
+            rep = {"option": opt.replace(tfile, "<table>"), "table_lines": lines, "alignments_per_bam(reference,position,read)": [sorted(p, key=lambda t: (t[0], t[1])) for p in per_file]}
+            try: RG.prepare_read_groups(types.SimpleNamespace(read_group=opt), sample)
+            except Exception as e:
+                ctx.violation(None, "read-group table preparation raises %s" % type(e).__name__, dict(rep, error=impl_error(e))); continue
+            chrs = []
+            for ref, cname in enumerate(("chrA", "chrB", "chrC")):
+                order = [r for k in (0, 1) for rf, pos, r in sorted(per_file[k], key=lambda t: (t[0], t[1])) if rf == ref]
+                sf = sample.read_group_file + "_" + cname
+                flines = [l.rstrip("\n") for l in open(sf)] if os.path.exists(sf) else []
+                chrs.append((order, flines))
+            rep["split_files"] = [c[1] for c in chrs]
+            cases.append(("(%d, %d, %s, %s, %s)" % (rc, gc, cs(delim), clist(lines, cs), clist(chrs, lambda c: "(%s, %s)" % (clist(c[0], cs), clist(c[1], cs)))), rep))
+            shutil.rmtree(d, ignore_errors=True)
+    finally:
+        shutil.rmtree(work, ignore_errors=True)
+    pre = PRE_U + "Definition check := check_split.\nDefinition prop := prop_split.\n"
+    mism, viol = ctx.corr("table_split_files", pre, cases, shard=30, ctype="scase", nontrivial=lambda o: sum(1 for f in o["split_files"] if f) > 1)
+    ctx.corr_report("table_split_files", mism, viol, keyfn=lambda o: None, what="split_read_group_table: a read of a chromosome that has a row in the table is missing from / duplicated in / mislabelled in that chromosome's split file")
+    ctx.rule("table grouper: get_file_grouping_properties on generated option strings (2-6 fields, non-numeric and empty column indices -> ValueError), and the real prepare_read_groups / "
+             "split_read_group_table on generated tables (8 column layouts / delimiters, rows missing, duplicated rows, comments, malformed lines) with two BAM files whose reads are aligned to "
+             "1-3 chromosomes and several times to one: the per-chromosome split files compared line by line with GroupedTable.v split_file (check_split) and with split_preserves_rows evaluated "
+             "on the real files (prop_split); the answers of the real ReadTableGrouper behind them are the correspondence grouper_table; non-trivial = two or more non-empty split files")
 
 
 def obs_g(res, fi, gi):
@@ -262,6 +474,7 @@ def pipeline(ctx, quick):
         for r in w.reads:
             if rnd.random() < .15: r["tags"] = {}
             elif r["chr"] == "chrB" and r["tags"].get("RG") == "zeta": r["tags"]["RG"] = "alpha"     # group zeta absent from chrB
+            elif r["chr"] == "chrB" and rnd.random() < .3: r["tags"]["RG"] = "omega"                   # group omega only on chrB, the LAST chromosome processed
         wtruth = {r["name"]: r["tags"].get("RG", "NA") for r in w.reads}
         wpaths = write_world(w, wd)
         for hs in ("1", "2"):
@@ -344,6 +557,8 @@ def run(ctx):
     from props.c02 import check_enums
     section(ctx, "enums", check_enums, ctx)            # a changed enumeration is reported as broken; the sections below still run on the members the model knows
     section(ctx, "groupers", groupers, ctx, quick)
+    section(ctx, "universe", universe_section, ctx, quick)
+    section(ctx, "table_split", table_split_section, ctx, quick)
     section(ctx, "unit_grouped", unit_grouped, ctx, quick)
     section(ctx, "pipeline", pipeline, ctx, quick)
     ctx.assume.append("float -> rational reconstruction of internal counter values (Fraction.limit_denominator(30000), accepted only within 1e-9): float summation error is outside the model")
